@@ -45,7 +45,7 @@ PROPS['C13']['trusted'].append('the values of the byte-string literals COMMAND_L
 
 PROPS['C19'] = {'units': ['P'], 'spec_tags': [], 'bounded': ['frameops'],
                 'trusted': [TRUSTED_BYTES, TRUSTED_STD,
-                            'Frame::get and Frame::find keep ASSUMED contracts (std iterator adaptors with effectful / generic closures are outside what Verus can specify); bounded differential stand-in frameops',
+                            'Frame::get keeps an ASSUMED contract (iter_mut().find_map with a closure that mutates the slot is outside what Verus accepts); bounded differential stand-in frameops. Frame::find is proved on top of the ASSUMED contract of std\'s provided Iterator::find_map on the Fields iterator (wrapper vx_fields_find_map: the closure is applied in order up to the first Some) and of str == str (vx_str_eq)',
                             "assumed contracts of std's default Iterator::count on the repository's Fields iterator (wrapper vx_fields_count), Option::as_deref, Arc/String::as_ref, vstd's slice::Iter / vec::IntoIter laws",
                             'termination of the hole-skipping recursion in Fields/IntoIter::{next,next_back} is not checked (exec_allows_no_decreases_clause): each recursive call consumes one slot of a finite vector',
                             'a slice / Vec of non-zero-sized elements has at most isize::MAX elements (size_hint arithmetic)']}
